@@ -96,6 +96,9 @@ def run(prog, rep, tier, cfg):
             rep.need('K6b', 'unlock:reason:%s' % v['name'], okp, 'Reason::%s decrements %s by the amount' % (v['name'], pair[v['name']]), X.loc(U, hit[0].bb) if hit else X.loc(U))
         if ms and subs:
             X.precedes('K7', 'unlock:party-before-total', U, [ms[0].bb], [c.bb for c in subs], 'the per-party lock is released (or the call fails) before the total moves')
+    # ---- what a settlement moves out of the client's locked balance (rows shared with C07)
+    import props.c07 as c07
+    c07.payment_window(prog, rep, X, prefix='payment:')
     # ---- transfer / slash
     T = X.fn(ST + 'transfer_balance', CR)
     tsub = [c for c in T.calls if callee_is('balance_table::BalanceTable::<BS>::must_subtract')(c)]
